@@ -25,7 +25,7 @@ def validate(ctx, events, table, label):
     return accepted, devs, res
 
 
-DIRECTED = ["cachekeys", "exclude-reload", "nth-cache", "exclude-race", "cachekeys", "reload-race"]
+DIRECTED = ["cachekeys", "exclude-reload", "nth-cache", "exclude-race", "tail", "reload-race", "cachekeys"]
 
 
 def directed_kind(sid, race):
@@ -46,6 +46,11 @@ def make_job(ctx, rng, sid, race, kind=None):
         n = rng.choice([150, 330, 1200])
         lines = pipeline.make_lines(rng, n, sparse=True)
         sched = pipeline.make_schedule(rng, lines, 0.2)
+        if kind == "tail":
+            # a slow steady producer under --tail: snapshots of constant size whose window moves; the query is left alone
+            # for stretches (merger cache, same count) and changed while the window moves
+            lines = pipeline.make_lines(rng, 700, sparse=True)
+            sched = [{"sleep": 0.02, "lines": lines[i:i + 5]} for i in range(0, len(lines), 5)]
         if kind in ("exclude-race", "reload-race"):
             # keep the loader busy (a burst every few ms) so that the coordinator naps between rounds
             lines = pipeline.make_lines(rng, 600, sparse=True)
@@ -57,33 +62,41 @@ def make_job(ctx, rng, sid, race, kind=None):
             relines = [pipeline.make_lines(rng, n, sparse=True)]
             rescheds = [[{"sleep": 0, "lines": relines[0]}]]
         steps = pipeline.scenario_steps(rng, kind, nrel)
-    return (sid, lines, sched, steps, relines, rescheds)
+    tail = 0
+    if kind is None and sid % 3 == 2 and sid % 2 == 0:      # every sixth session runs under --tail
+        tail = rng.choice([1, 7, 99, 100, 101, 250, 1000])
+    elif kind == "tail":
+        tail = rng.choice([5, 100, 150])
+    return (sid, lines, sched, steps, relines, rescheds, tail)
 
 
 def run_jobs(ctx, jobs, fzf, fzf_oracle, race, label):
     """Runs the sessions, projects their hook traces, builds the oracle tables and validates everything with
     Trace_Pipeline; violations are recorded on ctx.  Returns (events, results)."""
     def do(job):
-        sid, lines, sched, steps, relines, rescheds = job
-        tr, get, cmdmap = pipeline.run_session(ctx, fzf, sid, lines, sched, steps, race_log=race, reload_scheds=rescheds)
-        evs, keys, cfgs = pipeline.project(tr, get, sid, cmdmap)
+        sid, lines, sched, steps, relines, rescheds, tail = job
+        tr, get, cmdmap = pipeline.run_session(ctx, fzf, sid, lines, sched, steps, race_log=race, reload_scheds=rescheds,
+                                               extra_args=(["--tail", str(tail)] if tail else []))
+        sizes = {-1: len(lines)}
+        sizes.update({k: len(rl) for k, rl in enumerate(relines)})
+        evs, keys, cfgs = pipeline.project(tr, get, sid, cmdmap, tail=tail, sizes=sizes)
         table = {}
         rawids = {}
-        for (q, n, srt, ci) in keys:
+        for (q, lo, n, srt, ci) in keys:
             inp, excluded, nth = cfgs[ci] if ci < len(cfgs) else (-1, (), "")
             src = lines if inp == -1 else relines[inp]
-            ids = pipeline.oracle(fzf_oracle, src, q, n, srt, excluded=excluded, nth=nth, raw=True)
-            rawids[(q, n, srt, ci)] = ids
-            table[pipeline.okey(sid, q, n, srt, ci)] = pipeline.fnv_res(ids)
+            ids = pipeline.oracle(fzf_oracle, src, q, n, srt, excluded=excluded, nth=nth, raw=True, lo=lo)
+            rawids[(q, lo, n, srt, ci)] = ids
+            table[pipeline.okey(sid, q, lo, n, srt, ci)] = pipeline.fnv_res(ids)
         # bounds for the deviation StaleChunkCache: a result mixed chunk-wise from two configurations lies between their
         # intersection and their union
         for e in evs:
             if e["ev"] == "reset" and e["pcfg"] >= 0:
-                a = rawids.get((e["q"], e["count"], e["sort"], e["cfg"]))
-                b = rawids.get((e["q"], e["count"], e["sort"], e["pcfg"]))
+                a = rawids.get((e["q"], e["lo"], e["count"], e["sort"], e["cfg"]))
+                b = rawids.get((e["q"], e["lo"], e["count"], e["sort"], e["pcfg"]))
                 if a is not None and b is not None:
                     sa, sb = set(a), set(b)
-                    table["B|" + pipeline.okey(sid, e["q"], e["count"], e["sort"], e["cfg"]) + "|%d" % e["pcfg"]] = \
+                    table["B|" + pipeline.okey(sid, e["q"], e["lo"], e["count"], e["sort"], e["cfg"]) + "|%d" % e["pcfg"]] = \
                         [len(sa & sb), len(sa | sb)] + sorted(sa | sb)[:200] + [-1] + sorted(sa & sb)[:200]
         return sid, evs, table
     results = {}
@@ -135,7 +148,7 @@ def run(ctx, prop="C08"):
     fzf = ctx.build_fzf(race=race)
     fzf_oracle = ctx.build_fzf() if race else fzf
     rng = ctx.rng
-    nsess = ctx.pick(17, 600) if not race else ctx.pick(10, 400)
+    nsess = ctx.pick(20, 600) if not race else ctx.pick(10, 400)
     jobs = [make_job(ctx, rng, sid, race) for sid in range(nsess)]
     if ctx.replay:
         rp = json.load(open(ctx.replay))["case"]
@@ -175,12 +188,15 @@ def run(ctx, prop="C08"):
     ctx.cov["rule"] = ("tmux-driven sessions of the real binary: a producer writes 3..40000 lines in seeded bursts while query edits, chained "
                        "edits and sort toggles are POSTed at seeded times; the hook trace (reset/pick/cachehit/cancelled/publish/list) is "
                        "validated by Trace_Pipeline with every published list and the final list compared with `fzf --filter` of the "
-                       "same query over the same prefix; non-trivial = distinct published (query, snapshot size, sort, final) with a "
+                       "same query over the same prefix (under --tail N: the same window of the last N records); non-trivial = distinct published (query, snapshot size, sort, final) with a "
                        "non-empty result")
     ctx.cov["picks_with_two_pending_requests"] = both
     ctx.sample([e for e in events if e["ev"] in ("reset", "pick", "publish", "list", "end")][:6])
     ctx.assumptions += ["filter mode is the yardstick (bound to the spec by C01/C04)", "no --tail in these sessions yet"]
     ctx.cov["sessions_with_reload"] = sum(1 for j in jobs if j[4])
+    ctx.cov["sessions_with_tail"] = sum(1 for j in jobs if j[6])
+    ctx.cov["publishes_of_a_moved_tail_window"] = sum(1 for e in events if e["ev"] == "publish" and e["lo"] > 0)
+    ctx.cov["distinct_tail_windows_published"] = len({(e["lo"], e["count"]) for e in events if e["ev"] == "publish" and e["lo"] > 0})
     return "model_checking"
 
 
